@@ -109,6 +109,54 @@ def run(ctx):
             s.fail({"bytes": hexb(bytes(b)), "cut": k}, "checksum is not hexadecimal", "C06/laws/not-hex")
     streams.append(s)
 
+    # --- mutable byte strings (bytearray, memoryview) checksummed again after being changed in place, and every input
+    # kind at the package's default log level as well as at DEBUG
+    s = Stream("mutable-and-log-levels")
+    import logging
+    r = ctx.rng("C06.mut")
+    for _ in range(3000 if ctx.thorough else 500):
+        n = r.choice([1, 2, 5, 40, 300])
+        buf = bytearray(r.randrange(256) for _ in range(n))
+        view = r.random() < 0.3
+        obj = memoryview(buf) if view else buf
+        steps = []
+        bad = None
+        for _k in range(r.choice([2, 3, 4])):
+            with common.log_level(r.choice([logging.DEBUG, logging.INFO, logging.WARNING])):
+                try:
+                    got = "ok " + hexb(utils.make_checksum(obj))
+                except Exception as e:  # noqa
+                    got = "err " + type(e).__name__
+            why = oracle(sum(buf), got)
+            steps.append(bytes(buf).hex())
+            if why and not bad:
+                bad = why
+            pos = r.randrange(n)
+            buf[pos] = r.choice([x for x in range(256) if x != buf[pos]])
+        s.case({"kind": "memoryview" if view else "bytearray", "states": steps[:2], "len": n})
+        s.count("memoryview" if view else "bytearray")
+        if bad:
+            s.fail({"kind": "memoryview" if view else "bytearray", "states": steps}, "after an in-place change: " + bad,
+                   "C06/mutable/" + bad.split(":")[0])
+    for _ in range(2000 if ctx.thorough else 400):
+        t = "".join(chr(r.randrange(256)) for _ in range(r.choice([1, 2, 9, 60])))
+        bb = t.encode("latin-1")
+        for level in (logging.DEBUG, logging.INFO, logging.WARNING):
+            with common.log_level(level):
+                for inp, what in ((t, "str"), (bb, "bytes")):
+                    try:
+                        got = "ok " + hexb(utils.make_checksum(inp))
+                    except Exception as e:  # noqa
+                        got = "err " + type(e).__name__
+                    why = oracle(sum(bb), got)
+                    if why:
+                        s.fail({"input": what, "codepoints": cps(t), "log_level": logging.getLevelName(level), "impl": got},
+                               "%s input at log level %s: %s" % (what, logging.getLevelName(level), why),
+                               "C06/log-level/" + why.split(":")[0])
+        s.case({"codepoints": cps(t[:16]), "levels": "DEBUG,INFO,WARNING"})
+        s.count("levels")
+    streams.append(s)
+
     # --- every other function the package exposes under the name make_checksum (re-exports, wrappers) is the checksum
     # function too: same oracle over all one- and two-byte inputs and every residue
     s = Stream("other-bindings")
